@@ -1390,8 +1390,8 @@ def run(tier, seed, replay=None):
             check_tensor(rep, r, syms, d, kind, hb, comp)
         else:
             check_circuit(rep, r, syms, mk(), fam)
-    plan = [("tensor", 30), ("bubble", 16), ("repeat_pure", 8), ("repeat_default", 3), ("pure", 12),
-            ("default_pure", 3), ("default_mixed", 4)] if quick \
+    plan = [("tensor", 30), ("bubble", 16), ("repeat_pure", 8), ("repeat_default", 2), ("pure", 10),
+            ("default_pure", 3), ("default_mixed", 3)] if quick \
         else [("tensor", 160), ("bubble", 80), ("repeat_pure", 50), ("repeat_default", 16), ("pure", 60),
               ("default_pure", 28), ("default_mixed", 22)]
     walls = {"witnesses": round(time.time() - t0, 2)}
